@@ -161,6 +161,20 @@ def run(rep, build, tier, seed):
             rep.count(key=("declared", w), nontrivial=True)
             if not any(l.split() and l.split()[-1] == w or (l.startswith(b"file_ext") and w in l.split()) for l in Ib["lines"]):
                 rep.finding("lost|%s" % w.decode(), "the saved config lost the declared word/extension %r" % w, {"kind": "config", "cfg_b64": common.b64(base_dir)})
+        # every extension stays with the language it was declared for
+        declared = {b".ch": b"CPP", b".cxx": b"CPP", b".hh": b"C-HEADER", b".jav": b"JAVA", b".mmx": b"OC+"}
+        got = {}
+        for l in Ib["lines"]:
+            p_ = l.split()
+            if p_ and p_[0] == b"file_ext" and len(p_) > 2:
+                for e in p_[2:]:
+                    got[e] = p_[1].upper()
+        for e, lang in declared.items():
+            rep.count(key=("file_ext-language", e), nontrivial=True)
+            if e in got and got[e] != lang:
+                rep.finding("file_ext-language|%s" % e.decode(), "the saved config maps extension %s to %s, it was declared for %s: %r"
+                            % (e.decode(), got[e].decode(), lang.decode(), [l for l in Ib["lines"] if l.startswith(b"file_ext")]),
+                            {"kind": "config", "cfg_b64": common.b64(base_dir)})
         for vn, vc in variants:
             Iv = cfgrun.impl_load(vc, wd)
             Mv = cfgrun.model_load(m, vc)
